@@ -44,4 +44,12 @@ theorem C12_counterexample_host_case : ¬ C12_host_resolution_full := by
 example : classify (.single wBase) (some wHost) [47, 107, 101, 121] =
     .ok (.object (lowerAscii wHost) [107, 101, 121]) := by rfl
 
+/-- `example.com:+80` -/
+def wPortPlus : Bytes := [101, 120, 97, 109, 112, 108, 101, 46, 99, 111, 109, 58, 43, 56, 48]
+
+/-- F-path-3: a base domain with a signed port is taken for valid (`u16::from_str` accepts a
+    leading `+`), so `SingleDomain::new` / `MultiDomain::new` do not refuse it -/
+theorem C12_counterexample_port_plus :
+    isValidDomain wPortPlus = true ∧ (∃ v, multiNew [wPortPlus] = .ok v) := ⟨by decide, _, rfl⟩
+
 end S3V.C12
